@@ -473,6 +473,9 @@ def _cast(v, src, dst):
                     return z3.SignExt(dst.bits - v.size(), v) if src.kind == "i" else z3.ZeroExt(dst.bits - v.size(), v)
                 # Int rep.  Narrowing to an 8/16-bit type wraps exactly (modular arithmetic on the integer); 32/64-bit targets are the
                 # index dtypes: in range by the harness bounds (unsigned<-signed of a negative 64-bit value is not modelled)
+                if dst.bits == 64 and src.bits == 64 and src.kind != dst.kind and z3.is_int(v):
+                    # the same 64 bits read with the other signedness
+                    return z3.If(v < 0, v + (1 << 64), v) if dst.kind == "u" else z3.If(v >= (1 << 63), v - (1 << 64), v)
                 if (dst.bits <= 16 or (dst.bits == 32 and EXACT32[0])) and (src.bits > dst.bits or src.kind != dst.kind) and z3.is_int(v):
                     m = 1 << dst.bits
                     return (v % m) if dst.kind == "u" else ((v + (m >> 1)) % m) - (m >> 1)
@@ -1768,6 +1771,10 @@ def _shift(op, a, b, dt):
 def _wrap_res(v, dt):
     if not is_sym(v) and dt.kind in "iu":
         return _wrap_int(v, dt)
+    if is_sym(v) and z3.is_int(v) and dt.kind in "iu" and (dt.bits <= 16 or (dt.bits == 32 and EXACT32[0])):
+        # arithmetic of an Int-represented cell in a narrow integer type wraps like the machine type (wider types: in range by the harness bounds)
+        m = 1 << dt.bits
+        return (v % m) if dt.kind == "u" else ((v + (m >> 1)) % m) - (m >> 1)
     return v
 
 
